@@ -67,7 +67,7 @@ def run_bounded_step_text(n):
     code = ("from contracts.bake_oracle import plate_fill_text\ndef run():\n    return plate_fill_text(%d)\n" % n)
     out = harness.run_replay({'inputs': {'n': n}, 'code': code}, timeout=600)
     name = f'{PID}/bounded[plate-fill-step-text]'
-    bound = f'{n} x 3 recipes with a whole-plate fill_to on a 2x2 plate with unequal wells'
+    bound = f'{n} x 6 recipes with a whole-plate fill_to on a 2x2 plate with unequal wells (whole and fractional display units)'
     if out.get('ok') is None:
         return [{'name': name, 'case': f'n<={n}', 'kind': 'bounded', 'verdict': 'unknown', 'note': str(out.get('error'))[-300:],
                  'count': 0, 'bound': bound, 'secs': 0.0}]
